@@ -22,16 +22,16 @@ func init() { register(&Check{ID: "C12", Run: runC12, Replay: replayC12}) }
 
 // c12Layout is a file built from an intended partition.
 type c12Layout struct {
-	Shape     []int  `json:"shape"`           // fragments per intended segment
-	Tracks    int    `json:"tracks"`          // 1 or 2
-	Tfra2     int    `json:"tfra2,omitempty"` // mfra only: second tfra (track 2) with one entry fewer (1) / the same entries (2) / one more (3)
-	Gap       bool   `json:"gap,omitempty"`   // sidx/sidx2 only: a free box between the top-level index and the first segment (first_offset != 0)
-	Mech      string `json:"mech"`            // "styp", "sidx", "sidx2", "mfra", "none"
-	Emsg      int    `json:"emsg"`            // 0 none, 1 before the first moof of every segment, 2 before every moof
-	SegSidx   int    `json:"seg_sidx"`        // number of sidx boxes inside each styp segment (mech styp only)
-	Base      uint64 `json:"base"`            // first decode time
-	Cto       int32  `json:"cto"`             // composition offset of the first sample
-	LeadIn    int    `json:"lead_in"`         // unused bytes at the start of each mdat payload
+	Shape     []int  `json:"shape"`                // fragments per intended segment
+	Tracks    int    `json:"tracks"`               // 1 or 2
+	Tfra2     int    `json:"tfra2,omitempty"`      // mfra only: second tfra (track 2) with one entry fewer (1) / the same entries (2) / one more (3)
+	Gap       bool   `json:"gap,omitempty"`        // sidx/sidx2 only: a free box between the top-level index and the first segment (first_offset != 0)
+	Mech      string `json:"mech"`                 // "styp", "sidx", "sidx2", "mfra", "none"
+	Emsg      int    `json:"emsg"`                 // 0 none, 1 before the first moof of every segment, 2 before every moof
+	SegSidx   int    `json:"seg_sidx"`             // number of sidx boxes inside each styp segment (mech styp only)
+	Base      uint64 `json:"base"`                 // first decode time
+	Cto       int32  `json:"cto"`                  // composition offset of the first sample
+	LeadIn    int    `json:"lead_in"`              // unused bytes at the start of each mdat payload
 	MdatLarge bool   `json:"mdat_large,omitempty"` // every mdat with the 64-bit (largesize) header form
 	AudioOnly bool   `json:"audio_only,omitempty"`
 	// AudioFirst (two tracks): track 1 is the audio track (timescale 600) and track 2 the video track that carries the
